@@ -26,15 +26,26 @@ package queue
 //@ func (*sortedGroup).addBefore inline
 //@ func (*sortedGroup).insertAfter inline
 
+// frames of the link interface (used where the dynamic type is not known on a path, and for loop frames)
+//@ interface link.getPrev trusted
+//@   modifies nothing
+//@ interface link.getNext trusted
+//@   modifies nothing
+//@ interface link.setPrev trusted
+//@   modifies allof(sortedFile).prev, allof(sortedGroup).prev
+//@ interface link.setNext trusted
+//@   modifies allof(sortedFile).next, allof(sortedGroup).next
+
 // ---------------------------------------------------------------- chunk allocation (C11)
 
 //@ func (*sortedFile).allocate
 //@   requires f != nil
-//@   requires plain: !typeis(f.orig, sts.Recovered) ==> 0 <= f.allocated && f.allocated < f.orig.GetSize() && desired >= 0
-//@   ensures  range-is-cursor-step: !typeis(f.orig, sts.Recovered) ==> offset == old(f.allocated) && length > 0 && f.allocated == offset + length && f.allocated <= f.orig.GetSize() && (desired > 0 ==> length <= desired) && (length == desired || f.allocated == f.orig.GetSize())
+//@   modifies f.allocated
+//@   ensures  range-is-cursor-step: !typeis(f.orig, sts.Recovered) && 0 <= old(f.allocated) && old(f.allocated) < f.orig.GetSize() && desired >= 0 ==> offset == old(f.allocated) && length > 0 && f.allocated == offset + length && f.allocated <= f.orig.GetSize() && (desired > 0 ==> length <= desired) && (length == desired || f.allocated == f.orig.GetSize())
 //@   on return assert recovered-delegates: typeis(f.orig, sts.Recovered) ==> called(sts.Recovered.Allocate) && lastarg(sts.Recovered.Allocate, 1) == desired && offset == lastret(sts.Recovered.Allocate, 0) && length == lastret(sts.Recovered.Allocate, 1) && f.allocated == old(f.allocated)
 
 //@ func (*sortedFile).isAllocated
+//@   ensures plain-iff-cursor-at-size: !typeis(f.orig, sts.Recovered) ==> result == (f.allocated == f.orig.GetSize())
 //@   on return assert iff-cursor-at-size: (!typeis(f.orig, sts.Recovered) ==> result == (f.allocated == f.orig.GetSize())) && (typeis(f.orig, sts.Recovered) ==> called(sts.Recovered.IsAllocated) && result == lastret(sts.Recovered.IsAllocated, 0))
 //@   modifies nothing
 
@@ -52,6 +63,7 @@ package queue
 // ---------------------------------------------------------------- group rotation (C12)
 
 //@ func (*Tagged).delayGroup
+//@   modifies allof(sortedGroup).next, allof(sortedGroup).prev, q.headGroup
 //@   requires group != nil && group.conf != nil
 //@   on return assert single-or-last-stays: n == group ==> unchanged(group.next) && unchanged(group.prev) && unchanged(q.headGroup)
 //@   on return assert moved-behind-last-of-priority: n != group && n != old(group.prev) && old(n.next) != group ==> n.next == group && group.prev == n && group.next == old(n.next) && (old(n.next) != nil ==> old(n.next).prev == group)
@@ -59,3 +71,18 @@ package queue
 //@   on return assert head-follows: n != group ==> q.headGroup == ite(old(q.headGroup) == group, old(group.next), old(q.headGroup))
 //@   on return assert run-of-equal-priority: n.conf.Priority == group.conf.Priority && (n.next == nil || n == group || old(n.next) == nil || old(n.next).conf.Priority != group.conf.Priority)
 //@   loop 0 invariant n != nil && n.conf != nil && n.conf.Priority == p && p == group.conf.Priority
+
+//@ func (*Tagged).removeFile
+//@   modifies entries(q.headFile), entries(q.byFile)
+
+// ---------------------------------------------------------------- emission (C10 C11 C12)
+
+//@ func (*Tagged).Pop
+//@   on return assert no-self-reference: r0 != nil ==> chunk.prev == "" || chunk.prev != chunk.Hashed.GetName()
+//@   on return assert unordered-has-no-prev: r0 != nil && next.group.conf.Order == sts.OrderNone ==> chunk.prev == ""
+//@   on return assert prev-is-chain-predecessor: r0 != nil && next.group.conf.Order != sts.OrderNone ==> called((*sortedFile).getPrevName) && lastarg((*sortedFile).getPrevName, 0) == next && (chunk.prev == lastret((*sortedFile).getPrevName, 0) || (chunk.prev == "" && lastret((*sortedFile).getPrevName, 0) == chunk.Hashed.GetName()))
+//@   on return assert slice-from-allocate: r0 != nil ==> as(r0, *sendable) == chunk && called((*sortedFile).allocate) && lastarg((*sortedFile).allocate, 0) == next && chunk.Hashed == next.orig && chunk.offset == lastret((*sortedFile).allocate, 0) && chunk.length == lastret((*sortedFile).allocate, 1) && chunk.send == lastret((*sortedFile).getSendSize, 0) && lastarg((*sortedFile).getSendSize, 0) == next && ncalls((*sortedFile).allocate) == 1
+//@   on return assert emits-a-file-of-the-served-group: r0 != nil ==> g != nil && called((*Tagged).delayGroup) && lastarg((*Tagged).delayGroup, 1) == g && ncalls((*Tagged).delayGroup) == 1
+//@   before call (*Tagged).delayGroup assert rotates-served-group: arg1 == g && next != nil
+//@   before call (*sortedFile).allocate assert allocates-unallocated-only: called((*sortedFile).isAllocated) && !lastret((*sortedFile).isAllocated, 0) && lastarg((*sortedFile).isAllocated, 0) == next && arg1 == g.conf.ChunkSize
+//@   loop 0 backedge assert skips-only-unready-groups: next == nil
